@@ -49,6 +49,41 @@ def rely_scan(chk):
            detail=str(offenders))
 
 
+def _model_cycles():
+    """Models that reach themselves (only possible through a non-model container: model sequences are immutable)."""
+    inner = [hm.Integer(1)]
+    m1 = hm.List([inner])
+    inner.append(m1)
+    d = {}
+    m2 = hm.Expression([hm.Symbol("f"), d])
+    d["self"] = m2
+    t = [hm.Keyword("k")]
+    m3 = hm.Tuple([hm.Set([t])])
+    t.append(m3)
+    return [m1, m2, m3]
+
+
+def _concrete(name, model):
+    """Replay for a refuted VC of hy-repr: a short history on the real function after which the module state is not
+    what it was, or a later call prints something else than in a fresh state."""
+    want = {"sym": "'a", "list": "[1 'b]"}
+    for v in _model_cycles() + [[hm.Symbol("x")], hm.Expression([hm.Symbol("g")])]:
+        hr._seen.clear()
+        hr._quoting = False
+        try:
+            hy.repr(v)
+        except Exception:  # noqa: BLE001
+            pass
+        got = {"sym": hy.repr(hm.Symbol("a")), "list": hy.repr([1, hm.Symbol("b")])}
+        state = (set(hr._seen), hr._quoting)
+        hr._seen.clear()
+        hr._quoting = False
+        if got != want or state[0] or state[1]:
+            return {"confirmed": True, "input": "hy.repr of " + repr(type(v).__name__) + " reaching itself through a container, then hy.repr('a), hy.repr([1 'b])",
+                    "observed": {"later calls": got, "_seen, _quoting afterwards": repr(state)}, "expected": {"later calls": want, "_seen, _quoting afterwards": "(set(), False)"}}
+    return None
+
+
 def histories(chk):
     """Bounded cross-check: random histories of hy.repr calls with a printer that raises at chosen depths."""
     rng = random.Random(chk.seed)
@@ -66,6 +101,7 @@ def histories(chk):
         cyc = []
         cyc.append(cyc)
         base.append(cyc)
+        base.extend(_model_cycles())
         fresh = {}
         for i, b in enumerate(base):
             fresh[i] = hy.repr(b)
@@ -99,7 +135,7 @@ def histories(chk):
 
 
 def run(chk):
-    targets.c28(chk)
+    targets.c28(chk, concrete=_concrete)
     rely_scan(chk)
     histories(chk)
     chk.trust("Hy compiler for hy/core/hy_repr.hy::hy-repr (verified text = its output on this run)", "id() injective on live objects",
